@@ -671,6 +671,12 @@ def r2(ctx):
         if len(vals) != 1:
             raise AnalysisError(f"{f.site()}: the plates handed to the scorer under batch={case} have {len(vals)} different values over the paths")
         got[case] = next(iter(vals))
+    # the forms above are read off a dict over the chunk LIST itself; a dict built over another representation of the chunk (positions into the
+    # plate list, ids looked up again) is not judged by comparing texts
+    for case_, txt_ in got.items():
+        if not txt_.endswith(f"for_0in{chunk}}}"):
+            raise AnalysisError(f"{f.site()}: the plates handed to the scorer (batch {case_}) are `{txt_[:120]}`: not a dict over the chunk list `{chunk}`; "
+                                f"this representation is not one the rule reads")
     ok_c = got["nonempty"] == want[True]
     ctx.check("R2", f"{f.site()}::conditioned-on-batch", ok_c,
               "plates_to_score[plate.plate_id] = unique(plate.combine(concat(plates whose id is in the batch)))",
